@@ -2,7 +2,7 @@
    does.  Statements only. *)
 From RS Require Import Base.Prelude Base.Text Codec.Vlq Codec.CodecSpec Stream.Types Stream.Leaves
   Stream.Tree Api.ApiTree Sem.Attr Checkers.ChkCodec Checkers.ChkTree
-  Proofs.AttrCodec Proofs.AttrSms Proofs.AttrLeaves.
+  Proofs.AttrCodec Proofs.AttrSms Proofs.AttrLeaves Stream.Concat Proofs.StreamConcat Proofs.RStreamPos Proofs.RStreamTree Proofs.FinalConcat Proofs.FinalTree.
 
 (* (i) codec and tables, for EVERY source type at once: the map that get_map builds from a
    text-less stream (announcements dense and write-once, chunk mappings sorted, fields < 2^30)
@@ -39,3 +39,36 @@ Proof.
   - rewrite (sm_lines_full_attr t m Hc), (sm_lines_final_attr t m Hc). reflexivity.
 Qed.
 Print Assumptions C03_source_map_leaf.
+
+(* (iv) composites, columns = true: the text-less stream of any tree over Raw* / Original /
+   SourceMapSource (consistent map) / Concat / Replace, to any depth, attributes every byte of
+   source() exactly as the text-carrying stream does ... *)
+Theorem C03_final_vs_text : forall st s,
+  RStreamTree.rshape s = true -> treeA s = true -> rsmall s = true ->
+  attr_of_final_events (fst (fst (stream st s (mkOpts true true)))) (source s) true =
+  attr_of_stream (fst (fst (stream st s (mkOpts true false)))) true.
+Proof. exact final_attr_tree. Qed.
+Print Assumptions C03_final_vs_text.
+
+(* ... hence the property itself for that class: get_map (the map() of ConcatSource,
+   ReplaceSource, OriginalSource) attributes as the stream, and is None exactly when no chunk is
+   mapped.  The remaining hypothesis is the encoder's domain: every field of a streamed segment
+   is below 2^30. *)
+Theorem C03_trees_columns : forall st s,
+  RStreamTree.rshape s = true -> treeA s = true -> rsmall s = true ->
+  forallb mapping_small (chunk_mappings (fst (fst (stream st s (mkOpts true true))))) = true ->
+  attr_of_map (fst (get_map st s true)) (source s) true =
+  attr_of_stream (fst (fst (stream st s (mkOpts true false)))) true /\
+  is_none (fst (get_map st s true)) =
+  negb (mapped_chunk_exists (fst (fst (stream st s (mkOpts true false))))).
+Proof. exact C03_tree_cols. Qed.
+Print Assumptions C03_trees_columns.
+
+(* the closing segments of ConcatSource are exactly what is needed: for children whose text-less
+   streams are dense, positioned on their text, sorted, with exact end info, the composite's
+   text-less stream attributes the concatenated text as the children's streams back to back *)
+Theorem C03_concat_final : forall trs, Forall kid_ok trs ->
+  attr_of_final_events (snd (concat_fold true (map fst trs) (concat_init, []))) (concat (map tr_text trs)) true
+  = flat_map (fun tr => attr_of_final_events (tr_events tr) (tr_text tr) true) trs.
+Proof. exact concat_final_attr. Qed.
+Print Assumptions C03_concat_final.
